@@ -269,3 +269,48 @@ def gen_logger_cases(rng, n):
 
 
 py_checks.GENS["logger"] = gen_logger_cases
+
+
+# ---------------------------------------------------------------------------------------------
+# configuration inheritance: `json_extends` (group "config")
+# ---------------------------------------------------------------------------------------------
+from pams.utils.json_extends import json_extends  # noqa: E402
+
+
+def gen_config_cases(rng, n):
+    names = ["A", "B", "C", "D", "E"]
+    keys = ["x", "y", "z", "w", "class", "numAgents"]
+    for _ in range(n):
+        whole = {}
+        present = [c for c in names if rng.random() < 0.8]
+        for c in present:
+            d = {}
+            ks = [k for k in keys if rng.random() < 0.5]
+            rng.shuffle(ks)
+            for k in ks:
+                d[k] = rng.choice([0, 1, 2.5, "s", True, None, rng.randint(-5, 50)])
+            if rng.random() < 0.6:
+                # the parent reference anywhere among the keys; sometimes missing / cyclic
+                items = list(d.items())
+                items.insert(rng.randint(0, len(items)), ("extends", rng.choice(names)))
+                d = dict(items)
+            whole[c] = d
+        target = {}
+        ks = [k for k in keys if rng.random() < 0.4]
+        rng.shuffle(ks)
+        for k in ks:
+            target[k] = rng.choice([0, 7, "t", False])
+        if rng.random() < 0.85:
+            items = list(target.items())
+            items.insert(rng.randint(0, len(items)), ("extends", rng.choice(names)))
+            target = dict(items)
+        parent = rng.choice(names + ["child"])
+        r = rng.random()
+        excl = None if r < 0.5 else [k for k in keys if rng.random() < 0.3]
+        args = [whole, parent, target] + ([] if excl is None and rng.random() < 0.5 else [excl])
+        c = Case("json_extends", json_extends, args)
+        c.bound = False
+        yield c
+
+
+py_checks.GENS["config"] = gen_config_cases
